@@ -371,6 +371,45 @@ func c14Run(c *core.Ctx) {
 				c.Tick()
 			}
 		}
+		// long inputs: lengths at and around the block sizes of buffered readers and the 8- and 16-bit limits, filled with
+		// constants, counting octets and a repeated valid encoding
+		{
+			u++
+			if c.Mine(u) && c.Begin("long-inputs", h.name, c14Case{Helper: h.name, Hex: "00"}) {
+				for _, l := range []int{255, 256, 257, 511, 512, 513, 1023, 1024, 1025, 4095, 4096, 4097, 8191, 8192, 8193, 65534, 65535} { // not 65 536: an element cannot hold it (16-bit length) and the helpers are judged on deliverable contents
+					for f := 0; f < 5+len(seeds); f++ {
+						b := make([]byte, l)
+						for i := range b {
+							switch {
+							case f == 0:
+								b[i] = 0x00
+							case f == 1:
+								b[i] = 0xFF
+							case f == 2:
+								b[i] = 'a'
+							case f == 3:
+								b[i] = byte(i)
+							case f == 4:
+								b[i] = byte(i>>8) ^ byte(i*7)
+							default:
+								sd := seeds[f-5]
+								b[i] = sd[i%len(sd)]
+							}
+						}
+						run(b)
+						if f >= 5 {
+							// the valid encoding once, then filler
+							sd := seeds[f-5]
+							for i := len(sd); i < l; i++ {
+								b[i] = 0x01
+							}
+							run(b)
+						}
+					}
+				}
+				c.Tick()
+			}
+		}
 		// word family: contents made of up to three words (thorough: four for at most 12 words) from the short string
 		// literals of the helper's current source, as length-prefixed labels and as dot-separated text, bare and behind an
 		// outer length octet — a branch that looks for particular labels, prefixes or suffixes in a particular order is
